@@ -21,14 +21,14 @@ RULE = ('rows = (rule set over names {a,b,default} each absent/@/!/role:x/role:y
         'not defined in the rule set (the fallback decides); distinct = distinct row. Stratum `mutation`: the same table re-checked after the '
         'rule set of a living enforcer changed (merge without overwrite, direct store update, item assignment / deletion, overwrite, '
         'file reload in non-overwrite mode), against the CURRENT rule set. Stratum `registered`: a registered default that no file mentions stays '
-        'defined (never decided by the default rule) through histories of policy.d edits, deletions and forced reloads, with and without a main file. Stratum `policy_dirs`: two and three configured policy directories (each one existing with two files, existing and empty, or missing on disk), every directory with files defining a name of its own (deny / role-dependent / null) plus its own body for a shared name, the default rule permissive and defined in the main file, in one of the directories, or configured as a check object / constructor name / option (and one unusable default), with and without a main file; after the first load and after every step of a short history (a directory file rewritten or added, a file deleted, a forced reload, the main file rewritten or created) every name is decided by the reference function applied to the rule set the CURRENT files define (main file, then the existing directories in configured order, files of a directory in sorted order, later definitions replacing earlier ones). Half of the `policy_dirs` cases use SYMBOLIC LINKS (available/enabled layouts, ConfigMap mounts): directory files that are links to regular files kept elsewhere in the tree, outside every policy directory (relative and absolute link texts; rewritten where they are kept, taken away, pointed at a new file), extra directory files that are links to a file of another configured directory, and configured directories that are themselves links to a directory; no link ever dangles, the fold of the current files follows links, and a rewrite advances the times of the target, its directory and the directory of the link. Stratum `assigned_store`: the table on the routes that use a rule store AS IT IS - `enforcer.rules = store` with the store built by Rules.from_dict / Rules.load (JSON text) / Rules.load_json, its default_rule argument omitted, None, a name (default / b / ghost) or a check object: the default rule that is configured is the one the store was built with (the fallback key of the effective rule store), so with no default_rule argument unknown names deny even when a rule called `default` exists and allows; the configuration of the enforcer rotates through all nine. A third of the table rows run with the debug logging of the library switched on. Stratum `reload`: a name defined in the main policy file (and an unknown name with a usable default) decided while the enforce call of another thread re-reads the rewritten main file in which those definitions stand unchanged (reloader pre-empted at sampled line boundaries). Stratum `overlap`: two decisions on one enforcer at the same time (second one runs at sampled line boundaries of the first, deterministic scheduler), each decided as the table says.')
+        'defined (never decided by the default rule) through histories of policy.d edits, deletions and forced reloads, with and without a main file. Stratum `policy_dirs`: two and three configured policy directories (each one existing with two files, existing and empty, or missing on disk), every directory with files defining a name of its own (deny / role-dependent / null) plus its own body for a shared name, the default rule permissive and defined in the main file, in one of the directories, or configured as a check object / constructor name / option (and one unusable default), with and without a main file; after the first load and after every step of a short history (a directory file rewritten or added, a file deleted, a forced reload, the main file rewritten or created) every name is decided by the reference function applied to the rule set the CURRENT files define (main file, then the existing directories in configured order, files of a directory in sorted order, later definitions replacing earlier ones). Half of the `policy_dirs` cases use SYMBOLIC LINKS (available/enabled layouts, ConfigMap mounts): directory files that are links to regular files kept elsewhere in the tree, outside every policy directory (relative and absolute link texts; rewritten where they are kept, taken away, pointed at a new file), extra directory files that are links to a file of another configured directory, and configured directories that are themselves links to a directory; no link ever dangles, the fold of the current files follows links, and a rewrite advances the times of the target, its directory and the directory of the link. Stratum `assigned_store`: the table on the routes that use a rule store AS IT IS - `enforcer.rules = store` with the store built by Rules.from_dict / Rules.load (JSON text) / Rules.load_json, its default_rule argument omitted, None, a name (default / b / ghost) or a check object: the default rule that is configured is the one the store was built with (the fallback key of the effective rule store), so with no default_rule argument unknown names deny even when a rule called `default` exists and allows; the configuration of the enforcer rotates through all nine. A third of the table rows run with the debug logging of the library switched on. Stratum `deprecated`: an enforcer that loads from files (main file and / or a policy directory) with registered defaults that have deprecated predecessors (renamed and same-name, reason / since given on the DeprecatedRule or old-style on the new default, one default deprecated for removal, enforce_new_defaults on / off), the old names sometimes maintained in a file, through short histories of file edits and forced reloads: a name defined nowhere - the old name of a renamed predecessor that no file and no registration defines included - is decided by the default rule only, a name a file defines by the file, a plain registered name by its registered body (a registered name with a predecessor: any documented reading of its own definition is accepted). Stratum `shared_files`: two or three living enforcers (default-rule configurations of their own; one configuration object or one each) over the SAME main policy file / policy directory, whole-table questions in shuffled order with file edits (a name newly defined as denying, the default rule removed, bodies flipped), forced reloads and clear() of one of them in between: every decision of every enforcer follows the CURRENT file content. Stratum `reload`: a name defined in the main policy file (and an unknown name with a usable default) decided while the enforce call of another thread re-reads the rewritten main file in which those definitions stand unchanged (reloader pre-empted at sampled line boundaries). Stratum `overlap`: two decisions on one enforcer at the same time (second one runs at sampled line boundaries of the first, deterministic scheduler), each decided as the table says.')
 ASSUMPTIONS = ['rule bodies contain no rule: references (reference cycles through the default are C06/C13 territory)',
                'role:x / role:y / @ / ! leaves evaluate as C01/C04 state']
 LEVEL_TEXT = ('The complete decision table of the statement (about 1.3e5 rows) is driven through the real enforcer and '
               'compared row by row; a finite quantifier, so enumeration is the right level.')
 LEVEL_NOTE = 'trusted: the 12-line reference function; the name/role universe is small by design'
 PLAN = {'quick': dict(shards=4, wall=120), 'thorough': dict(shards=8, wall=300)}
-MIN = {'assigned_store_decisions': 20000, 'assigned_store_unknown_name_no_default_argument': 1500, 'assigned_store_unknown_name_no_default_argument_rule_named_default_allows': 400, 'policy_dirs_decisions_with_symlinks': 8000, 'policy_dirs_decisions_name_only_in_symlinked_files': 1000, 'policy_dirs_decisions_symlinked_directory': 3000, 'policy_dirs_decisions': 8000, 'policy_dirs_decisions_name_only_in_earlier_directory': 400, 'overlapping_evaluations': 200, 'decisions_during_reload': 100, 'configs_under_debug_logging': 100, 'registered_decisions': 2000, 'mutation_decisions': 20000, 'evaluations': 10000, 'fallback_rows': 2000, 'allow_decisions': 1000, 'deny_decisions': 1000}
+MIN = {'deprecated_decisions': 5000, 'deprecated_decisions_old_name_of_renamed_default_defined_nowhere': 600, 'shared_files_decisions': 5000, 'shared_files_decisions_after_an_edit_another_enforcer_asked_first': 1500, 'assigned_store_decisions': 20000, 'assigned_store_unknown_name_no_default_argument': 1500, 'assigned_store_unknown_name_no_default_argument_rule_named_default_allows': 400, 'policy_dirs_decisions_with_symlinks': 8000, 'policy_dirs_decisions_name_only_in_symlinked_files': 1000, 'policy_dirs_decisions_symlinked_directory': 3000, 'policy_dirs_decisions': 8000, 'policy_dirs_decisions_name_only_in_earlier_directory': 400, 'overlapping_evaluations': 200, 'decisions_during_reload': 100, 'configs_under_debug_logging': 100, 'registered_decisions': 2000, 'mutation_decisions': 20000, 'evaluations': 10000, 'fallback_rows': 2000, 'allow_decisions': 1000, 'deny_decisions': 1000}
 ANCHORS = ['oslo_policy.policy:Rules.__missing__', 'oslo_policy.policy:Enforcer.enforce',
            'oslo_policy.policy:Enforcer.set_rules', 'oslo_policy.policy:Rules.__init__']
 REQUIRED_ANCHORS = ['oslo_policy.policy:Enforcer.enforce']
@@ -644,6 +644,309 @@ def check_policy_dirs(ctx, case):
         tree.cleanup()
 
 
+def classify(got, eff, q, want):
+    """Mechanism key of one wrong table row (the same classifier as in check_config)."""
+    if isinstance(got, str):
+        return 'unknown-name-raises' if q not in eff else 'defined-name-raises'
+    if not eff:
+        return 'empty-ruleset-allows'
+    if q in eff:
+        return 'defined-name-decided-by-something-else'
+    return 'unusable-default-allows' if want is False else 'usable-default-not-applied'
+
+
+def decide(enf, q, roles, do_raise=False):
+    from oslo_policy import policy
+    try:
+        return bool(enf.enforce(q, {}, {'roles': list(roles)}, do_raise=do_raise))
+    except policy.PolicyNotAuthorized:
+        return False if do_raise else 'EXC:PolicyNotAuthorized'
+    except Exception as e:
+        return 'EXC:' + type(e).__name__
+
+
+# ---- registered defaults with deprecated predecessors, in enforcers that load from files ----------------------------
+# a registered default is a DEFINED name; the (renamed) predecessor's old name is NOT: it is defined only where a file (or a
+# registration of its own) defines it.  Enforcing the old name, like any other name defined nowhere, falls to the default rule.
+DEP_QUERIES = ['new', 'old', 'same', 'gone', 'new2', 'old2', 'a', 'b', 'default', 'ghost', 'zzz']
+DEP_DEFAULTS = ['unset', 'ctor_other', 'ctor_ghost', 'obj_true', 'obj_role', 'opt_b', 'opt_empty', 'obj_false']
+DEP_BODIES = ['@', '!', 'role:x', 'role:y']
+
+
+def gen_deprecated(r, dcfg, shape):
+    """One enforcer that loads from files (main file and / or one policy directory) with registered defaults that have
+    deprecated predecessors (renamed and same-name; reason / since given on the DeprecatedRule or, old style, on the new
+    default), plus a short history of file edits, as a replayable dict."""
+    body = lambda: r.choice(DEP_BODIES)
+    regs = [dict(name='new', body=body(), old=dict(name='old', body=body()), style=r.choice(['rule', 'rule', 'default', 'none']))]
+    if shape in (1, 3):
+        regs.append(dict(name='same', body=body(), old=dict(name='same', body=body()), style=r.choice(['rule', 'default'])))
+    if shape in (2, 3):
+        regs.append(dict(name='new2', body=body(), old=dict(name='old2', body=body()), style='rule'))
+        regs.append(dict(name='gone', body=body(), removal=True))
+    if r.random() < 0.25:
+        regs.append(dict(name='default', body=body()))                    # the default rule itself is a registered (plain) default
+    r.shuffle(regs)
+
+    def mapping(with_old):
+        m = {}
+        if r.random() < 0.6:
+            m['default'] = r.choice(['@', '@', '!', 'role:y'])
+        if r.random() < 0.5:
+            m['b'] = r.choice(['@', 'role:x', '!'])
+        if r.random() < 0.4:
+            m['a'] = body()
+        if with_old:
+            m[r.choice(['old', 'old', 'old2'])] = body()                  # the operator maintains the old policy in a file
+        if r.random() < 0.15:
+            m[r.choice(['new', 'same', 'gone'])] = body()
+        return m
+    where = r.choice(['main', 'main', 'dir', 'both', 'none'])
+    old_in_file = r.random() < 0.3
+    main = mapping(old_in_file and where != 'dir') if where in ('main', 'both') else None
+    dirfile = mapping(old_in_file and where == 'dir') if where in ('dir', 'both') else None
+    ops = []
+    for _ in range(r.choice([0, 1, 1, 2, 3])):
+        kind = r.choice(['force', 'write-main', 'write-main', 'write-dir', 'delete-dir'])
+        if kind == 'force':
+            ops.append(['force'])
+        elif kind == 'write-main' and where != 'none':
+            ops.append(['write-main', mapping(r.random() < 0.4)])
+        elif kind == 'write-dir' and where in ('dir', 'both'):
+            ops.append(['write-dir', mapping(r.random() < 0.4)])
+        elif kind == 'delete-dir' and where in ('dir', 'both'):
+            ops.append(['delete-dir'])
+    return dict(deprecated=True, main=main, dirfile=dirfile, has_dir=where in ('dir', 'both'), dcfg=dcfg, regs=regs,
+                enforce_new_defaults=r.random() < 0.3, suppress=r.random() < 0.5, ops=ops)
+
+
+def check_deprecated(ctx, case):
+    """Every name is decided as the statement says for the rule set `current files + registered names`: a name defined
+    nowhere - the old name of a renamed predecessor included - by the default rule only; a name a file defines by the file's
+    body; a plain registered name by its registered body.  The value of a registered name WITH a predecessor is documented
+    elsewhere (new body, `new or old` during the deprecation period, the operator's override of the old name): any of those
+    is accepted here - it is a defined name, decided by (one reading of) its own definition."""
+    import warnings
+    from oslo_policy import policy
+    dcfg = case['dcfg']
+    tree = files.Tree(dirs=('pd',) if case['has_dir'] else ())
+    try:
+        cur_main = None if case['main'] is None else dict(case['main'])
+        cur_dir = None if case['dirfile'] is None else dict(case['dirfile'])
+        if cur_main is not None:
+            tree.write(os.path.basename(tree.main), cur_main, 'json')
+        if cur_dir is not None:
+            tree.write('pd/a.yaml', cur_dir, 'json')
+        kw, overrides = default_kwargs(dcfg)
+        if case['enforce_new_defaults']:
+            overrides['enforce_new_defaults'] = True
+        with warnings.catch_warnings():
+            warnings.simplefilter('ignore')
+            enf = policy.Enforcer(tree.conf(**overrides), **kw)
+            if case['suppress']:
+                enf.suppress_deprecation_warnings = True
+            for g in case['regs']:
+                if g.get('removal'):
+                    enf.register_default(policy.RuleDefault(g['name'], g['body'], deprecated_for_removal=True,
+                                                            deprecated_reason='no longer needed', deprecated_since='N'))
+                elif g.get('old'):
+                    on_rule = dict(deprecated_reason='a better name / default', deprecated_since='N') if g['style'] == 'rule' else {}
+                    on_new = dict(deprecated_reason='a better name / default', deprecated_since='N') if g['style'] == 'default' else {}
+                    enf.register_default(policy.RuleDefault(
+                        g['name'], g['body'], deprecated_rule=policy.DeprecatedRule(g['old']['name'], g['old']['body'], **on_rule), **on_new))
+                else:
+                    enf.register_default(policy.RuleDefault(g['name'], g['body']))
+            regs = {g['name']: g for g in case['regs']}
+            ctx.case(case, nontrivial=True, stratum='deprecated')
+            for op in [['load']] + [list(o) for o in case['ops']]:
+                if op[0] == 'write-main':
+                    cur_main = dict(op[1])
+                    tree.write(os.path.basename(tree.main), cur_main, 'json')
+                elif op[0] == 'write-dir':
+                    cur_dir = dict(op[1])
+                    tree.write('pd/a.yaml', cur_dir, 'json')
+                elif op[0] == 'delete-dir':
+                    cur_dir = None
+                    tree.delete('pd/a.yaml')
+                elif op[0] == 'force':
+                    enf.load_rules(force_reload=True)
+                in_files = pd_fold(cur_main, [{'a.yaml': cur_dir}] if cur_dir is not None else [])
+                eff = dict(in_files)
+                for g in case['regs']:
+                    eff.setdefault(g['name'], g['body'])
+                for qi, q in enumerate(DEP_QUERIES):
+                    g = regs.get(q)
+                    pred = g.get('old') if g and q not in in_files else None
+                    for ri, roles in enumerate(CREDS):
+                        want = {reference(eff, dcfg, q, roles)}
+                        if pred:
+                            # a defined name with a predecessor: its own definition in any of the documented readings
+                            if not case['enforce_new_defaults'] and pred['body'] != g['body']:
+                                want.add(body_value(g['body'], roles) or body_value(pred['body'], roles))
+                            if pred['name'] != q and pred['name'] in in_files:
+                                want.add(body_value(in_files[pred['name']], roles))
+                            if len(want) > 1:
+                                ctx.unconstrained('value-of-registered-name-with-deprecated-predecessor')
+                        got = decide(enf, q, roles, do_raise=(qi + ri) % 3 == 0)
+                        ctx.count('deprecated_decisions')
+                        if q not in eff:
+                            ctx.count('deprecated_decisions_name_defined_nowhere')
+                            if any(x.get('old') and x['old']['name'] == q and x['name'] != q for x in case['regs']):
+                                ctx.count('deprecated_decisions_old_name_of_renamed_default_defined_nowhere')
+                        if got not in want:
+                            ctx.violation(classify(got, eff, q, min(want)), case,
+                                          {'after_step': op, 'current_main_file': cur_main, 'current_directory_file': cur_dir,
+                                           'registered': case['regs'], 'defined_names': sorted(eff), 'default_config': dcfg,
+                                           'queried': q, 'queried_name_is_defined': q in eff, 'roles': roles,
+                                           'expected_one_of': sorted(want), 'observed': got})
+                            return
+    finally:
+        tree.cleanup()
+
+
+# ---- several living enforcers over the SAME policy file / policy directory -------------------------------------------
+SH_NAMES = ['a', 'b', 'c', 'default']
+SH_QUERIES = ['a', 'b', 'c', 'default', 'ghost', 'zzz']
+SH_DEFAULTS = ['unset', 'unset', 'ctor_default', 'ctor_other', 'ctor_ghost', 'obj_true', 'obj_role', 'opt_b', 'opt_empty']
+SH_SHAPES = ['main', 'main', 'main', 'dir', 'both']
+
+
+def gen_shared(r, n, shape):
+    """Two or three living enforcers configured with the same main policy file and / or the same policy directory (one
+    configuration object for all, or one each), and a history of whole-table questions with file edits between them."""
+    def mapping(prev=None):
+        m = {k: r.choice(DEP_BODIES) for k in SH_NAMES if r.random() < 0.5}
+        if r.random() < 0.6:
+            m['default'] = r.choice(['@', '@', 'role:x'])
+        if prev:
+            kind = r.choice(['define-denying', 'drop-default', 'flip', 'fresh'])
+            if kind == 'define-denying':
+                m = dict(prev)
+                m[r.choice([k for k in SH_NAMES[:3] if k not in prev] or ['c'])] = '!'      # a name that was unknown is now defined, denying
+            elif kind == 'drop-default':
+                m = {k: v for k, v in prev.items() if k != 'default'}                       # the default rule is removed
+                m.setdefault(r.choice(SH_NAMES[:3]), 'role:y')
+            elif kind == 'flip':
+                m = {k: ('!' if body_value(v, ['x']) else '@') for k, v in prev.items()} or m
+        return m
+    same_conf = r.random() < 0.4
+    dcfgs = [r.choice([d for d in SH_DEFAULTS if not (same_conf and d.startswith('opt_'))]) for _ in range(n)]
+    main = mapping() if shape in ('main', 'both') else None
+    dirfiles = {'a.yaml': mapping()} if shape in ('dir', 'both') else None
+    if main is not None and not main and r.random() < 0.7:
+        main['default'] = '@'
+    ops = []
+    cm, cd = main, dict(dirfiles or {})
+
+    def ask_all():
+        order = list(range(n))
+        r.shuffle(order)
+        if r.random() < 0.2:
+            order = order[:-1]                                 # one of them does not ask in this round
+        ops.extend(['ask', e] for e in order)
+    ask_all()
+    for _ in range(r.choice([1, 1, 2, 3])):
+        kind = r.choice(['main', 'main', 'dir', 'dir-new', 'dir-delete', 'force', 'clear'])
+        if kind == 'main' and main is not None:
+            cm = mapping(cm)
+            ops.append(['write-main', cm])
+        elif kind in ('dir', 'dir-new') and dirfiles is not None:
+            fn = 'a.yaml' if kind == 'dir' else 'b.yaml'
+            cd[fn] = mapping(cd.get(fn))
+            ops.append(['write-dir', fn, cd[fn]])
+        elif kind == 'dir-delete' and len(cd) > 1:
+            fn = r.choice(sorted(cd))
+            del cd[fn]
+            ops.append(['delete-dir', fn])
+        elif kind in ('force', 'clear'):
+            ops.append([kind, r.randrange(n)])
+            continue
+        else:
+            cm_or = mapping(cm if main is not None else cd.get('a.yaml'))
+            if main is not None:
+                cm = cm_or
+                ops.append(['write-main', cm])
+            else:
+                cd['a.yaml'] = cm_or
+                ops.append(['write-dir', 'a.yaml', cm_or])
+        ask_all()
+    return dict(shared=True, n=n, main=main, dirfiles=dirfiles, dcfgs=dcfgs, same_conf=same_conf, ops=ops)
+
+
+def check_shared(ctx, case):
+    """Every living enforcer decides every name as the statement says for the rule set the CURRENT files define, whichever
+    enforcer asked first after an edit and whatever the other enforcers over the same files did in between."""
+    from oslo_policy import policy
+    n = case['n']
+    tree = files.Tree(dirs=('pd',) if case['dirfiles'] is not None else ())
+    try:
+        cur_main = None if case['main'] is None else dict(case['main'])
+        cur_dir = None if case['dirfiles'] is None else {fn: dict(m) for fn, m in case['dirfiles'].items()}
+        if cur_main is not None:
+            tree.write(os.path.basename(tree.main), cur_main, 'json')
+        for fn, m in sorted((cur_dir or {}).items()):
+            tree.write('pd/' + fn, m, 'json')
+        dcfgs = list(case['dcfgs'])
+        shared_conf = tree.conf() if case['same_conf'] else None
+        enfs = []
+        for e in range(n):
+            kw, overrides = default_kwargs(dcfgs[e])
+            enfs.append(policy.Enforcer(shared_conf if shared_conf is not None else tree.conf(**overrides), **kw))
+        ctx.case(case, nontrivial=True, stratum='shared_files')
+        asked_since_edit = None               # enforcers that asked since the last edit (None: no edit yet)
+        cleared = set()
+        for op in case['ops']:
+            if op[0] == 'write-main':
+                cur_main = dict(op[1])
+                tree.write(os.path.basename(tree.main), cur_main, 'json')
+                asked_since_edit = set()
+            elif op[0] == 'write-dir':
+                cur_dir[op[1]] = dict(op[2])
+                tree.write('pd/' + op[1], cur_dir[op[1]], 'json')
+                asked_since_edit = set()
+            elif op[0] == 'delete-dir':
+                del cur_dir[op[1]]
+                tree.delete('pd/' + op[1])
+                asked_since_edit = set()
+            elif op[0] == 'force':
+                enfs[op[1]].load_rules(force_reload=True)
+            elif op[0] == 'clear':
+                # clear() empties THAT enforcer; what it answers afterwards is not this stratum's business (it keeps
+                # asking, unchecked); the other enforcers over the same files are not concerned
+                enfs[op[1]].clear()
+                cleared.add(op[1])
+            if op[0] != 'ask':
+                continue
+            e = op[1]
+            if e in cleared:
+                for q in SH_QUERIES:
+                    decide(enfs[e], q, ['x'])
+                    ctx.unconstrained('decisions-of-an-enforcer-after-clear')
+                if asked_since_edit is not None:
+                    asked_since_edit.add(e)
+                continue
+            eff = pd_fold(cur_main, [cur_dir] if cur_dir is not None else [])
+            later_asker = asked_since_edit is not None and bool(asked_since_edit - {e}) and e not in asked_since_edit
+            for qi, q in enumerate(SH_QUERIES):
+                for ri, roles in enumerate(CREDS):
+                    want = reference(eff, dcfgs[e], q, roles)
+                    got = decide(enfs[e], q, roles, do_raise=(qi + ri) % 4 == 0)
+                    ctx.count('shared_files_decisions')
+                    if later_asker:
+                        ctx.count('shared_files_decisions_after_an_edit_another_enforcer_asked_first')
+                    if got != want:
+                        ctx.violation(classify(got, eff, q, want), case,
+                                      {'at_step': op, 'enforcer': e, 'enforcers_that_asked_since_the_last_edit': sorted(asked_since_edit or ()),
+                                       'current_main_file': cur_main, 'current_directory_files': cur_dir, 'effective_rules': eff,
+                                       'default_config_of_this_enforcer': dcfgs[e], 'one_configuration_object': case['same_conf'],
+                                       'queried': q, 'roles': roles, 'expected': want, 'observed': got})
+                        return
+            if asked_since_edit is not None:
+                asked_since_edit.add(e)
+    finally:
+        tree.cleanup()
+
+
 def check_overlap(ctx, case):
     """Two decisions on one enforcer at the same time (an unknown name falling back to the default rule while a defined
     name is decided, two different unknown names, ...): each is decided as the table says, as if it ran alone."""
@@ -739,6 +1042,8 @@ def gen_overlap(ctx, i):
 
 
 OVERLAPS = {'quick': 10, 'thorough': 200}
+DEP_REPS = {'quick': 10, 'thorough': 150}
+SH_REPS = {'quick': 16, 'thorough': 250}
 RELOADS = {'quick': 4, 'thorough': 60}
 
 
@@ -827,6 +1132,25 @@ def run(ctx):
                         if ctx.mine(ridx):
                             check_registered(ctx, dict(registered=True, main=main, dir0=dir0, dir1=dir1, reg=reg, steps=steps))
     ctx.stratum('registered', exhaustive=True)
+    # ---- registered defaults with deprecated predecessors over files; several living enforcers over the same files -----
+    didx = 0
+    for di, dcfg in enumerate(DEP_DEFAULTS):
+        for shape in range(4):
+            for rep in range(DEP_REPS[ctx.tier]):
+                didx += 1
+                if ctx.mine(didx):
+                    check_deprecated(ctx, gen_deprecated(ctx.sub_rnd('DEP', ctx.tier, di, shape, rep), dcfg, shape))
+    ctx.stratum('deprecated', exhaustive=False)
+    sidx = 0
+    for n in (2, 2, 3):
+        for hi, shape in enumerate(SH_SHAPES):
+            for rep in range(SH_REPS[ctx.tier]):
+                sidx += 1
+                if ctx.mine(sidx):
+                    check_shared(ctx, gen_shared(ctx.sub_rnd('SH', ctx.tier, sidx, n, hi, rep), n, shape))
+    ctx.stratum('shared_files', exhaustive=False)
+    ctx.sample(gen_deprecated(ctx.sub_rnd('DEP', 'sample'), 'unset', 3), 'deprecated')
+    ctx.sample(gen_shared(ctx.sub_rnd('SH', 'sample'), 2, 'main'), 'shared_files')
     # ---- two and three configured policy directories under file histories ----------
     pidx = 0
     for li, layout in enumerate(PD_LAYOUTS):
@@ -880,6 +1204,10 @@ def run(ctx):
 
 def replay(ctx, case):
     contracts.missing_never_none()
+    if case.get('deprecated'):
+        return check_deprecated(ctx, case)
+    if case.get('shared'):
+        return check_shared(ctx, case)
     if case.get('overlap'):
         return check_overlap(ctx, case)
     if case.get('reload'):
